@@ -4388,4 +4388,173 @@ theorem c15b_noTrunc_iff (v : BVec) : v.noTrunc = true ↔ NoTrunc v := by
   · intro h b _ hb; exact h b (by omega)
 
 
+set_option maxRecDepth 40000
+
+/-! ### adjacency list: `compact` -/
+
+/-- all entries of a list of hot chunks, in order -/
+def flat (hot : List AChunk) : List Entry := (hot.map (·.entries)).flatten
+
+theorem flat_append (a b : List AChunk) : flat (a ++ b) = flat a ++ flat b := by
+  simp [flat]
+
+theorem flat_singleton (c : AChunk) : flat [c] = c.entries := by simp [flat]
+
+theorem drainLoop_flat (cap : Nat) (hcap : 0 < cap) (hot : List AChunk) (cur : AChunk) (es : List Entry) :
+    flat (drainLoop cap hot cur es).1 ++ (drainLoop cap hot cur es).2.entries =
+      flat hot ++ cur.entries ++ es := by
+  induction es generalizing hot cur with
+  | nil => simp [drainLoop]
+  | cons e es ih =>
+    unfold drainLoop
+    cases hp : cur.push e with
+    | some c =>
+      simp only
+      rw [ih]
+      unfold AChunk.push at hp
+      split at hp
+      · cases hp
+      · cases hp; simp
+    | none =>
+      simp only
+      rw [ih]
+      have : (AChunk.mk [] cap).push e = some ⟨[e], cap⟩ := by
+        unfold AChunk.push
+        rw [if_neg (by simp; omega)]; rfl
+      rw [this]
+      simp [flat_append, flat_singleton]
+
+theorem zeroSingleton_dst (es : List Entry) (h : zeroSingleton es = true) : ∃ e ∈ es, e.1 = 0 := by
+  match es, h with
+  | [(0, x)], _ => exact ⟨(0, x), by simp, rfl⟩
+
+/-- moving hot chunks to cold storage keeps the entries, up to order, when no chunk that is moved is
+a single edge to node 0 -/
+theorem toCold_perm (f : Nat) (hot : List AChunk) (cold : List CChunk) (ce : List Entry)
+    (hc : coldEntries cold = .ok ce)
+    (hb : ∀ c ∈ hot, ∀ e ∈ c.entries, e.1 < W ∧ e.2 < W)
+    (hz : ∀ c ∈ hot, zeroSingleton c.entries = false) :
+    ∃ ce', coldEntries (toCold f hot cold).2 = .ok ce' ∧
+      (ce' ++ flat (toCold f hot cold).1).Perm (ce ++ flat hot) := by
+  induction f generalizing hot cold ce with
+  | zero => exact ⟨ce, hc, List.Perm.refl _⟩
+  | succ f ih =>
+    unfold toCold
+    split
+    · cases hot with
+      | nil => exact ⟨ce, hc, List.Perm.refl _⟩
+      | cons oldest rest =>
+        simp only
+        have hb' : ∀ c ∈ rest, ∀ e ∈ c.entries, e.1 < W ∧ e.2 < W :=
+          fun c hc' => hb c (List.mem_cons_of_mem _ hc')
+        have hz' : ∀ c ∈ rest, zeroSingleton c.entries = false :=
+          fun c hc' => hz c (List.mem_cons_of_mem _ hc')
+        split
+        · rename_i hlen
+          obtain ⟨ce', h1, h2⟩ := ih rest cold ce hc hb' hz'
+          refine ⟨ce', h1, ?_⟩
+          have : oldest.entries = [] := List.length_eq_zero_iff.mp hlen
+          simpa [flat, this] using h2
+        · obtain ⟨g1, g2⟩ := c15b_adj_chunk_roundtrip_partial oldest (hb oldest (by simp)) (hz oldest (by simp))
+          have hc2 : coldEntries (cold ++ [oldest.compress]) = .ok (ce ++ sortByDst oldest.entries) :=
+            coldEntries_append cold [oldest.compress] ce (sortByDst oldest.entries) hc
+              (by simp [coldEntries, g1])
+          obtain ⟨ce', h1, h2⟩ := ih rest (cold ++ [oldest.compress]) _ hc2 hb' hz'
+          refine ⟨ce', h1, h2.trans ?_⟩
+          have e : flat (oldest :: rest) = oldest.entries ++ flat rest := by simp [flat]
+          rw [e, List.append_assoc]
+          exact List.Perm.append_left _ (List.Perm.append_right _ g2)
+    · exact ⟨ce, hc, List.Perm.refl _⟩
+
+theorem dropLast_append_of_getLast? {α : Type} (l : List α) (a : α) (h : l.getLast? = some a) :
+    l.dropLast ++ [a] = l := by
+  induction l with
+  | nil => simp at h
+  | cons x xs ih =>
+    cases xs with
+    | nil => simp at h; subst h; rfl
+    | cons y ys =>
+      rw [List.getLast?_cons_cons] at h
+      simp only [List.dropLast_cons_cons, List.cons_append]
+      rw [ih h]
+
+theorem compactHot_flat (hot : List AChunk) (delta : List Entry) (cap : Nat) (hcap : 0 < cap) :
+    flat (compactHot hot delta cap) = flat hot ++ delta := by
+  have hstart : flat (if lastHasRoom hot then hot.dropLast else hot) ++
+      (if lastHasRoom hot then hot.getLast?.getD (AChunk.mk [] cap) else AChunk.mk [] cap).entries = flat hot := by
+    cases hr : lastHasRoom hot with
+    | false => simp
+    | true =>
+      simp only [if_true]
+      cases hl : hot.getLast? with
+      | none => unfold lastHasRoom at hr; rw [hl] at hr; cases hr
+      | some last =>
+        simp only [Option.getD_some]
+        have := dropLast_append_of_getLast? hot last hl
+        conv => rhs; rw [← this]
+        rw [flat_append, flat_singleton]
+  have hdrain := drainLoop_flat cap hcap (if lastHasRoom hot then hot.dropLast else hot)
+    (if lastHasRoom hot then hot.getLast?.getD (AChunk.mk [] cap) else AChunk.mk [] cap) delta
+  rw [hstart] at hdrain
+  unfold compactHot
+  generalize drainLoop cap (if lastHasRoom hot then hot.dropLast else hot)
+    (if lastHasRoom hot then hot.getLast?.getD (AChunk.mk [] cap) else AChunk.mk [] cap) delta = dl at hdrain ⊢
+  obtain ⟨h1, c1⟩ := dl
+  simp only at hdrain ⊢
+  split
+  · rw [flat_append, flat_singleton]; exact hdrain
+  · rename_i hlen
+    have : c1.entries = [] := List.length_eq_zero_iff.mp (by omega)
+    rw [this, List.append_nil] at hdrain; exact hdrain
+
+/-- P: `compact` (move the delta buffer into chunks, compress the oldest chunks) keeps the edge list
+of a node up to order — for a positive chunk capacity and as long as no edge points to node 0
+(the decidable hypothesis; it rules out the zero-singleton chunk). -/
+theorem c15b_adj_compact_partial (l : AList) (cap : Nat) (hcap : 0 < cap) (es : List Entry)
+    (h : l.iter = .ok es)
+    (hb : ∀ e ∈ flat l.hot ++ l.delta, e.1 < W ∧ e.2 < W)
+    (hz : ∀ e ∈ flat l.hot ++ l.delta, e.1 ≠ 0) :
+    ∃ es', (l.compact cap).iter = .ok es' ∧ es'.Perm es := by
+  unfold AList.compact
+  split
+  · exact ⟨es, h, List.Perm.refl _⟩
+  · unfold AList.iter at h
+    cases hc : coldEntries l.cold with
+    | ok ce =>
+      rw [hc] at h
+      simp only [Res.ok.injEq] at h
+      have hflat2 := compactHot_flat l.hot l.delta cap hcap
+      have hmem2 : ∀ c ∈ compactHot l.hot l.delta cap, ∀ e ∈ c.entries, e ∈ flat l.hot ++ l.delta := by
+        intro c hc' e he
+        rw [← hflat2]
+        unfold flat
+        exact List.mem_flatten.mpr ⟨c.entries, List.mem_map.mpr ⟨c, hc', rfl⟩, he⟩
+      obtain ⟨ce', t1, t2⟩ := toCold_perm (compactHot l.hot l.delta cap).length
+        (compactHot l.hot l.delta cap) l.cold ce hc
+        (fun c hc' e he => hb e (hmem2 c hc' e he))
+        (fun c hc' => by
+          cases hzs : zeroSingleton c.entries with
+          | false => rfl
+          | true =>
+            obtain ⟨e, he, he0⟩ := zeroSingleton_dst _ hzs
+            exact absurd he0 (hz e (hmem2 c hc' e he)))
+      unfold AList.iter
+      simp only
+      rw [t1]
+      refine ⟨_, rfl, ?_⟩
+      rw [← h]
+      apply List.Perm.filter
+      rw [List.append_nil]
+      refine t2.trans ?_
+      rw [hflat2, ← List.append_assoc]
+      exact List.Perm.refl _
+    | err => rw [hc] at h; cases h
+    | panic => rw [hc] at h; cases h
+
+/-- W: with an edge to node 0 `compact` does lose it (chunk capacity 1: every chunk is a singleton). -/
+theorem c15b_adj_compact_witness :
+    ((((((({} : AList).addEdge (0, 1)).addEdge (0, 2)).addEdge (0, 3)).addEdge (0, 4)).addEdge (0, 5)).compact 1).iter
+      = .ok [(0, 2), (0, 3), (0, 4), (0, 5)] := by decide
+
+
 end Grafeo.Codec2
